@@ -36,6 +36,7 @@ inductive QOp where
   | clear
   | len
   | eqFresh                        -- the collection against `try_from_iter` of its own pairs and against its clone: ==, hash, cmp
+  | snapshot                       -- `clone()`, the clone kept alive: values are immutable here, nothing to do
   | iter
   | riter
   | ends                            -- `next()` / `next_back()` alternately until exhausted
@@ -174,6 +175,7 @@ def Quals.step (U : UnicodeOps) (q : Quals) : QOp → Res PErr (QOut × Quals)
   | .clear => .ok (.unit, [])
   | .len => .ok (.nat q.length q.isEmpty, q)
   | .eqFresh => .ok (.bool true, q)   -- a collection IS its content: same content, same value
+  | .snapshot => .ok (.unit, q)
   | .iter => .ok (.pairs q, q)
   | .riter => .ok (.pairs q.reverse, q)
   | .ends => .ok (.pairs (endsAux q.length q), q)
